@@ -1,14 +1,11 @@
 SPECIFICATION GSpec
 CONSTANTS
-  Sess = {"s1"}
+  Sess = {"s1","s2"}
   Reqs = {"r1"}
-  Gets = {"g1","g2","g3"}
-  Prime <- PrimeNone
-  Store = TRUE
-  Json = FALSE
-  Stateless = FALSE
-  MaxEmit = 2
-  MaxSreq = 0
+  Gets = {}
+  Cfgs <- CfgRouting
+  MaxEmit = 1
+  MaxSreq = 1
   MaxSa = 0
   Gates = FALSE
 VIEW MCView
